@@ -712,6 +712,15 @@ def run_form(doc, log):
         if not ok:
             raise Violation(PROP, "form-vs-array", f"{site_s}: differs from IntegralForm of the equivalent integrand array (rel {rel:.2e})", site=site_s)
     log.ev("serial", d=serial)
+    # call-time keyword arguments on the same Form object: other values, then an empty dictionary
+    # (back to the defaults of the weak forms, alpha = 1) - every call evaluates the weak form with
+    # the arguments of *that* call
+    for label, kw_call, factor in (("kwargs={'alpha': 2A}", {"alpha": 2.0 * A_}, 2.0), ("kwargs={}", {}, 1.0 / A_)):
+        got_kw = dense(frm.assemble(parallel=False, kwargs=kw_call, **akw))
+        ok, rel = close_exact_twin(got_kw, factor * ref, rtol=1e-11, atol=1e-12 * scale)
+        if not ok:
+            raise Violation(PROP, "form-vs-array", f"Form.assemble({label}) after other keyword arguments does not evaluate the weak form with the arguments of this call (rel {rel:.2e})", site=f"Form.assemble[{kind},call-kwargs]")
+    log.count("form-call-kwargs-history")
     # schedules -----------------------------------------------------------------------------------
     digests = set()
     switches = 0
